@@ -14,7 +14,7 @@ W = os.path.join(core.WORK, "crash")
 
 # the names of package os that internal/store/dir.go may use; each has a stand-in of identical signature in verifvfs
 OS_NAMES = ("Stat", "Remove", "MkdirAll", "IsNotExist", "Rename", "ReadFile", "ReadDir", "Open", "CreateTemp", "WriteFile",
-            "File", "ErrNotExist")
+            "File", "ErrNotExist", "Chtimes")
 
 
 def strip_comments_and_strings(src):
@@ -112,6 +112,8 @@ def driver_variant():
         args.append("stop")
     if "ReadDir" in blk:
         args.append("readdir")
+    if "os.Chtimes" not in src:
+        args.append("notouch")   # a tree before repair F38: blobCreate does not refresh the age of an existing blob
     return args
 
 
